@@ -204,4 +204,36 @@ PLANS = {
                  R("h_weights", "fast", "c17.pow2.model", 0, 200000), R("h_weights", "fast", "c17.scale.model", 0, 200000),
                  R("h_weights", "fast", "c17.pow2.global", 0, 20000)],
     },
+    "C19": {
+        "level": "exploration",
+        "rule": "one probe per forked case in the ASan/UBSan+assert build and in the NDEBUG+sanitizer build: ColoquinteParameters(e) for "
+                "every e in [-16,32] (exhaustive window) and INT_MIN/INT_MAX/random 32-bit values (throws iff e outside 1..9, e in 1..9 "
+                "passes check()); 67 single out-of-range parameter assignments x 3 entry points (exhaustive) and random combinations "
+                "(must throw, zero callbacks, circuit identical); 12 vector setters x lengths n-1, n+1, 0; malformed nets (length "
+                "mismatches, pin cells -1, n, INT_MAX, INT_MIN, inconsistent limits) via addNet/setNets followed by check / hpwl / "
+                "placement / report: an error must be raised before any work; every case non-trivial; distinct = probe identity",
+        "assumptions": ["NaN parameter values are not rejected by the parameter check and are out of scope"],
+        "runs": [R("h_invalid", "asan", "c19.effort.window", 49, 49, exhaustive=True), R("h_invalid", "ndebug", "c19.effort.window", 49, 49, exhaustive=True),
+                 R("h_invalid", "asan", "c19.effort.random", 400, 2000), R("h_invalid", "ndebug", "c19.effort.random", 400, 2000),
+                 R("h_invalid", "asan", "c19.params.single", 201, 603, exhaustive=True), R("h_invalid", "ndebug", "c19.params.single", 201, 603, exhaustive=True),
+                 R("h_invalid", "asan", "c19.params.combo", 600, 6000), R("h_invalid", "ndebug", "c19.params.combo", 300, 3000),
+                 R("h_invalid", "asan", "c19.setters", 360, 3600), R("h_invalid", "ndebug", "c19.setters", 360, 3600),
+                 R("h_invalid", "asan", "c19.nets", 960, 9600), R("h_invalid", "ndebug", "c19.nets", 960, 9600)],
+    },
+    "C20": {
+        "level": "exploration",
+        "rule": "(a) round trip: generated circuits in the text-representable domain (|values| < 10^5, all 8 orientations also on fixed "
+                "cells, N/S/FN/FS rows, placed and unplaced, pins far outside the outline) written by the real Circuit::exportIspd and "
+                "re-read by the real pycoloquinte/coloquinte.py Circuit.read_ispd (compiled module replaced by a pure-Python stand-in); "
+                "sizes, fixed flags, x, y, orientation, connectivity, pin offsets, row geometry, row orientation compared field by field, "
+                "plus reference wirelength of the re-read data vs Circuit::hpwl(); (b) binding table: the real pycoloquinte/module.cpp is "
+                "compiled against a recording stand-in for pybind11, its PYBIND11_MODULE body is executed and each of the 147 observed "
+                "registrations (27 enum values, 54 attributes, 18 properties, 38 methods, 10 classes) is compared by value with the C++ "
+                "entity of the same name (python name = camelToSnake(C++ name)); exhaustive over the registrations; non-trivial = circuit "
+                "has nets / a registration was checked; distinct = orientation sets, scale, sizes / binding identity",
+        "assumptions": ["stand-ins replace pybind11 and the compiled module (pybind11 is not installed): the binding half validates the registration calls, not pybind11 itself",
+                        "CPython 3 runs the real reader"],
+        "trusted_base": ["harness/pybind_stub/pybind11/pybind11.h", "harness/py_stub/coloquinte_pybind.py", "tools/rt_check.py", "CPython"],
+        "runs": [R("h_export", "asan", "c20.roundtrip", 600, 20000), R("h_bind", "asan", "c20.bindings", 256, 256, exhaustive=True)],
+    },
 }
